@@ -251,7 +251,7 @@ def stage_numbers(chk, n):
     agree = rejected = checked_values = 0
     for s, ok, m in zip(schemas, oks, model):
         impl = impl_numbers(s)
-        if impl["positive"][1].startswith("raises") or impl["negative"][1] != "Completed":
+        if impl["positive"][1].startswith("raises") or impl["negative"][1] != "Completed" or (not ok and impl["positive"][1] != "Completed"):
             # a foreign error escapes cover_schema_iter (hypothesis rejects the schema): nothing to compare
             rejected += 1
             chk.count("numeric:rejected-by-foreign-generator")
@@ -295,15 +295,18 @@ ADESC = {"Valid array": "AValid", "Near-boundary items array": "ANear", "Maximum
 LENS = [0, 0, 1, 1, 2, 3, 4, 5, 7, 8190, 8191, 8192, 8193]
 
 
-def gen_str_schema(rng):
+FOREIGN_ERRORS = ("raises InternalError", "raises InvalidArgument", "raises Unsatisfiable", "raises FailedHealthCheck")
+
+
+def gen_str_schema(rng, big=False):
     s = {"type": "string"}
     keys = [k for k, p in [("minLength", 0.65), ("maxLength", 0.65), ("pattern", 0.12), ("example", 0.08), ("default", 0.08), ("examples", 0.06)] if rng.random() < p]
     rng.shuffle(keys)
     base = rng.choice(LENS[:9])
     for k in keys:
         if k in ("minLength", "maxLength"):
-            s[k] = rng.choice([base, base + rng.choice([0, 1, 2, 5]), rng.choice(LENS)])
-        elif k == "pattern":
+            s[k] = rng.choice([base, base + rng.choice([0, 1, 2, 5]), rng.choice(LENS if big else LENS[:9])])
+        elif k == "pattern" and not big:
             s[k] = rng.choice(["^[a-z]+$", "^a*$", "[0-9]"])
         elif k == "examples":
             s[k] = rng.choice([[], ["ab"], ["", "xyz"]])
@@ -322,25 +325,16 @@ def c_str_schema(s):
     )
 
 
-def impl_requests(schema, table, lo_key, hi_key, template_first=False):
+def impl_requests(schema, table, lo_key, hi_key):
     """(description, requested lo, requested hi) of every non-authored positive value + whether a foreign draw failed."""
     with recording_draws() as calls:
         values, end = iterate(schema, "P", location="body")
     calls = list(calls)
-    template_len = None
-    if template_first:
-        if not calls or not calls[0]["ok"]:
-            return None, True, None, values
-        template_len = len(values[0][0]) if False else None
-        calls = calls[1:]
     failed = any(not c["ok"] for c in calls)
     items = []
     idx = 0
     for value, _, desc, _ in values:
         if desc in AUTHORED:
-            continue
-        if template_first and desc == "Valid array":
-            items.append([table[desc], len(value), len(value)])
             continue
         if idx >= len(calls):
             return None, failed, None, values
@@ -350,10 +344,16 @@ def impl_requests(schema, table, lo_key, hi_key, template_first=False):
     return items, failed, end, values
 
 
+def needs_char_but_max_zero(s) -> bool:
+    """pattern needs at least one character while maxLength is 0: no string conforms."""
+    return s.get("maxLength") == 0 and s.get("pattern") in ("^[a-z]+$", "[0-9]")
+
+
 def stage_lengths(chk, n):
     rng = chk.rng
     schemas = [json.loads(p.read_text()) for p in sorted((core.VERIF / "corpus" / "C03").glob("str_*.json"))]
     schemas += [gen_str_schema(rng) for _ in range(n)]
+    schemas += [gen_str_schema(rng, big=True) for _ in range(max(3, n // 100))]  # around BUFFER_SIZE: each draw costs seconds
     model = core.coq_eval(IMPORTS, [f"(string_plan {c_str_schema(s)}, range_ok (s_min {c_str_schema(s)}) (s_max {c_str_schema(s)}))" for s in schemas])
     agree = foreign_failed = validated = 0
     for s, (plan, rng_ok) in zip(schemas, model):
@@ -361,6 +361,9 @@ def stage_lengths(chk, n):
         mod = [[d, popt(lo), popt(hi)] for (d, lo, hi) in plan]
         chk.seen({"str": s}, "minLength" in s or "maxLength" in s)
         chk.count("string:" + ",".join(sorted(k for k in s if k != "type")))
+        if end in FOREIGN_ERRORS:
+            chk.count("string:rejected-by-foreign-generator")
+            continue
         if items is None or (end or "").startswith("raises"):
             chk.disagree("_positive_string: draws and yields do not line up", s, [items, end], mod)
             continue
@@ -381,7 +384,7 @@ def stage_lengths(chk, n):
                 continue
             validated += 1
             if not verdict:
-                chk.fail("string labelled positive does not conform to its schema", {"schema": s, "value": value[:40], "len": len(value), "description": desc}, region=None if rng_ok else "unsatisfiable_range")
+                chk.fail("string labelled positive does not conform to its schema", {"schema": s, "value": value[:40], "len": len(value), "description": desc}, region=None if rng_ok and not needs_char_but_max_zero(s) else "unsatisfiable_range")
     chk.stages["correspondence_string_lengths"] = {"schemas": len(schemas), "agree": agree, "foreign_draw_failed": foreign_failed, "values_validated": validated}
 
 
@@ -504,8 +507,6 @@ def gen_operation(rng):
     for _ in range(n):
         loc = rng.choice(["query", "query", "query", "header", "cookie", "path"])
         name = f"p{rng.randrange(8)}"
-        if (loc, name) in used or (loc != "path" and any(nm == name for _, nm in used if _ != "path")) and False:
-            continue
         if any(nm == name for _, nm in used):
             continue
         used.add((loc, name))
@@ -685,8 +686,21 @@ def model_sig(kind, names, medias):
     return ["?", str(kind)]
 
 
+def unsym(v):
+    """core.parse_coq_value leaves nullary constructors in argument position as Sym objects."""
+    if isinstance(v, core.Sym):
+        return v.name
+    if isinstance(v, tuple):
+        return tuple(unsym(x) for x in v)
+    if isinstance(v, list):
+        return [unsym(x) for x in v]
+    if isinstance(v, dict):
+        return {k: unsym(x) for k, x in v.items()}
+    return v
+
+
 def model_cases(val, names, medias, shape):
-    cases, end = val
+    cases, end = unsym(val)
     out = []
     for c in cases:
         sig = model_sig(c["c_kind"], names, medias)
@@ -699,6 +713,10 @@ def model_cases(val, names, medias, shape):
             parts.append({"container": CK[p["pt_kind"]], "name": p["pt_name"], "idx": None if src == "Foreign" else src[1], "mode": "N" if p["pt_mode"] == "Neg" else "P"})
         out.append({"sig": sig, "mode": "N" if c["c_mode"] == "Neg" else "P", "components": comps, "parts": parts})
     return out, end
+
+
+# values drawn through an uncached (filtered) strategy differ from one call of cover_schema_iter to the next
+RANDOM_DRAWS = ("Invalid enum value", "Value not matching", "Non-multiple", "Object with invalid", "Array with invalid")
 
 
 def _has_float(v):
@@ -738,7 +756,7 @@ def content_matches(operation, mcase, icase, names, medias, values) -> str | Non
             value = rec[p["idx"]][0]
             if rec[p["idx"]][1] != p["mode"]:
                 return f"{container}.{name}: label of value #{p['idx']} differs"
-            fuzzy = fuzzy or _has_float(value)
+            fuzzy = fuzzy or _has_float(value) or rec[p["idx"]][2].startswith(RANDOM_DRAWS)
             if mcase["sig"][0] == "duplicate" and mcase["sig"][1] == name:
                 value = [value, value]
             expected[name] = value
@@ -764,7 +782,7 @@ def content_matches(operation, mcase, icase, names, medias, values) -> str | Non
             return f"body: label of value #{p['idx']} differs"
         if case.media_type != media:
             return f"media type {case.media_type} vs {media}"
-        if not _has_float(value) and repr(case.body) != repr(value) and case.body != value:
+        if not _has_float(value) and not rec[p["idx"]][2].startswith(RANDOM_DRAWS) and repr(case.body) != repr(value) and case.body != value:
             return f"body {case.body!r} vs {value!r}"
     return None
 
